@@ -6,7 +6,7 @@ package engine
 
 //@ -- Delay: the promise of a choice point - exactly the given alternatives, in the given order, nothing decided yet
 //@ func Delay
-//@   property C03 C13 C16
+//@   property C03 C13 C16 C04 C05
 //@   modifies nothing
 //@   ensures[fresh] result != nil && fresh(result)
 //@   ensures[an-undecided-promise-holding-exactly-the-given-alternatives-in-order] result.delayed == k && result.err == nil && !result.ok && result.cutParent == nil && !result.repeat && result.recover == nil
